@@ -246,6 +246,33 @@ pub fn gen(seed: u64, thorough: bool, _only: Option<u64>, out: &mut Out) {
     emit("load", &b, out);
     mutate_all("load", &b, &mut r, true, out);
   }
+  // the two framing helpers on their own: load_u32 on 0..8 bytes (only exactly four are a number), store_u32 /
+  // store_bytes written out and read back
+  for l in 0..9usize {
+    let b = r.bytes(l);
+    let got = guarded(|| adss::load_u32(&b));
+    let obs = match got {
+      Some(Some(v)) => format!("some {}", v),
+      Some(None) => "none".into(),
+      None => "panic".into(),
+    };
+    let v = match got {
+      Some(Some(v)) if l == 4 && v == u32::from_le_bytes([b[0], b[1], b[2], b[3]]) => Ok(()),
+      Some(None) if l != 4 => Ok(()),
+      None => Err("load_u32 panicked".to_string()),
+      _ => Err("load_u32 does not read exactly four little-endian bytes".to_string()),
+    };
+    out.case(format!("adss.load_u32 {}", hex(&b)), obs, v);
+  }
+  for l in [0usize, 1, 255, 256, 70000] {
+    let body = r.bytes(l);
+    let mut w = vec![0xaa];
+    adss::store_bytes(&body, &mut w);
+    let mut w2 = vec![];
+    adss::store_u32(l as u32, &mut w2);
+    let ok = w[0] == 0xaa && w[1..5] == w2[..] && adss::load_bytes(&w[1..]).map(|x| x.to_vec()) == Some(body.clone()) && adss::load_u32(&w2) == Some(l as u32);
+    out.case(format!("adss.store_bytes {}", hex(&body)), hex(&w[1..]), if ok { Ok(()) } else { Err("store_bytes / store_u32 do not append the documented framing".into()) });
+  }
   // splices of two valid encodings and random strings
   for i in 0..shares.len().min(msgs.len()) {
     let a = &shares[i];
